@@ -210,4 +210,107 @@ REGISTRY = {
             'Lock as an effect sink)',
         ],
     },
+    'C14': {
+        'level': 'proof',
+        'technique': 'contract-based deductive verification (VCs from the '
+                     'real source, z3, effect log) of the shutdown chain + '
+                     'bounded stand-ins (same contracts; scripted run loops '
+                     'and client library)',
+        'level_text': 'safety chain only: losing an employee connection '
+                      'ends in handle_shutdown, which marks the node as not '
+                      'running, tells every employee to shut down and closes '
+                      'it, closes every client connection and (manager) '
+                      'forwards the shutdown upstream, without letting a '
+                      'send failure escape; discharged by z3 for any number '
+                      'of employees and clients',
+        'level_note': '"in bounded time", real process death and crash '
+                      'points between OS calls are not decided; '
+                      'ServerBase.run, Worker.recv_incoming and the client '
+                      'library are outside the subset and only checked '
+                      'bounded (scripted connections); threads are effect '
+                      'sinks with is_alive() false',
+        'parts': [
+            {'kind': 'bounded', 'module': 'contracts.c14'},
+            {'kind': 'custom', 'module': 'pybound.c14_checks'},
+            {'kind': 'pyvc', 'module': 'contracts.c14'},
+        ],
+        'rule': 'A: obligations of the shutdown/disconnect functions incl. '
+                'the loops over employees and clients; B: same contracts on '
+                'small servers/managers; native: run() with EOF/reset after '
+                '0-2 ordinary messages on three node kinds, recv failure on '
+                'a worker, 12 scripted replies to the client API',
+        'explanation': 'contract-based deductive verification of the '
+                       'shutdown chain plus bounded stand-ins',
+        'trusted_base': [
+            'contracts/runtime_prog.py external models (Connection, Queue, '
+            'threads, processes as effect sinks)',
+        ],
+    },
+    'C16': {
+        'level': 'other',
+        'engine': 'pybound',
+        'technique': 'frame-coverage contracts decided on the real AST '
+                     '(every field of __init__ is carried by copy / become / '
+                     'update / __reduce__ in every branch) + bounded '
+                     'round-trip contracts',
+        'level_text': 'the frame obligations hold for all inputs (they are '
+                      'syntactic: the field list is re-extracted from '
+                      '__init__ on every run, so a new field that is not '
+                      'carried fails a named obligation); equality of the '
+                      'round trip itself (pickle / copy / become of '
+                      'circuits incl. ones reached by edits, every '
+                      'constructible gate class, models, pass data with '
+                      'every reserved key, nested workflows) is checked '
+                      'bounded',
+        'level_note': 'pickle/dill/deepcopy trusted; frame coverage does '
+                      'not follow helper methods; round trips bounded to '
+                      'the stated scopes',
+        'parts': [
+            {'kind': 'custom', 'module': 'pybound.c16_checks'},
+        ],
+        'rule': 'frame obligations: one per (method, branch, field); round '
+                'trips: every circuit on 2 (3) qudits with <= 2 cycles plus '
+                'three edited variants each, 80 gate classes, 4 models, '
+                'PassData with all reserved keys and two user keys through '
+                'pickle/copy/become/update, one workflow nesting all '
+                'control passes; non-trivial = every evaluated case',
+        'explanation': 'frame-coverage contracts (syntactic, unbounded) '
+                       'plus bounded round-trip contracts',
+    },
+    'C11': {
+        'level': 'proof',
+        'technique': 'contract-based deductive verification in opaque mode '
+                     '(effect-trace contracts on the real control passes, '
+                     'z3) + bounded native contracts (scripted predicates, '
+                     'ForEachBlockPass write-back)',
+        'level_text': 'IfThenElse / While / DoWhile / Workflow run their '
+                      'bodies exactly in the order and number the predicate '
+                      'results dictate (trace contracts over the effect log, '
+                      'for every outcome sequence and any loop length), and '
+                      'a rejected DoThenDecide branch restores the circuit '
+                      'state and every PassData field including the qudit '
+                      'mappings, by the real PassData.become; discharged by '
+                      'z3',
+        'level_note': 'circuits, workflows and predicates are opaque '
+                      'references (assumptions listed in evidence); '
+                      'Circuit/PassData copy and become enter through '
+                      'assumed contracts (C16); ParallelDo and '
+                      'ForEachBlockPass are outside the subset and only '
+                      'checked bounded on a synchronous runtime stand-in; '
+                      'the error-bound clause is floating point: not decided',
+        'parts': [
+            {'kind': 'custom', 'module': 'pybound.c11_checks'},
+            {'kind': 'pyvc', 'module': 'contracts.c11'},
+            {'kind': 'pyvc', 'module': 'contracts.c11w'},
+        ],
+        'rule': 'A: obligations of the five control-pass run() methods incl. '
+                'loop invariants over the effect log; B: every scripted '
+                'predicate outcome sequence of length <= 3 and one nesting, '
+                'accept/reject, ParallelDo orders, ForEachBlockPass on 3 '
+                'partitioned circuits x 3 collection filters x 3 bodies x 3 '
+                'replace filters',
+        'explanation': 'effect-trace contracts on the control passes plus '
+                       'bounded native contracts',
+        'trusted_base': ['contracts/passes_prog.py opaque-object model'],
+    },
 }
